@@ -41,13 +41,48 @@ def _rest_body(w, method, path, body):
     return run
 
 
+def _event_body(w, ev):
+    """one reactor event, run by the 'reactor thread' while a REST worker thread is inside its request"""
+    def run():
+        from twisted.internet import error
+        s = w.sim
+        m = _messages()
+        kind = ev[0]
+        if kind == 'RX':
+            s.deliver(w.readable()[ev[1]], m[ev[2]])
+        elif kind == 'PEER_CLOSE':
+            s.close_delivered(w.readable()[ev[1]], error.ConnectionDone())
+        elif kind == 'TICK':
+            s.run_call(w.due()[ev[1]])
+        elif kind == 'OP_STOP':
+            from yabgp.api import utils
+            utils.manual_stop(w.cfg['remote_addr'])
+        else:
+            raise ValueError(ev)
+        s.drain_threads()              # the reactor runs what worker threads handed to callFromThread so far
+        return None
+    return run
+
+
+def _rest_outcome(r):
+    """what C16 distinguishes: done and reported done / refused (in whatever words)"""
+    import json
+    st, data = r
+    try:
+        ok = st == 200 and json.loads(data).get('status') is True
+    except Exception:      # noqa
+        ok = False
+    return 'sent' if ok else 'refused'
+
+
 def make_bodies(specs):
     """fresh bodies (and a fresh agent when a REST request is among them); returns (bodies, finish)"""
     from yabgp.message.update import Update
     w = None
-    if any(s[0] == 'rest' for s in specs):
+    if any(s[0] in ('rest', 'event') for s in specs):
         from . import world as W
         w = W.replay({}, ESTABLISHED, _messages())
+        w.sim.effects = []
     bodies = []
     for s in specs:
         if s[0] == 'construct':
@@ -55,22 +90,37 @@ def make_bodies(specs):
         elif s[0] == 'parse':
             data = Update.construct(copy.deepcopy(s[1]), s[2])
             bodies.append(lambda s=s, data=data: Update.parse(None, data[19:], s[2]))
+        elif s[0] == 'event':
+            bodies.append(_event_body(w, s[1]))
+        elif any(x[0] == 'event' for x in specs):
+            rb = _rest_body(w, s[1], s[2], s[3])
+            bodies.append(lambda rb=rb: _rest_outcome(rb()))
         else:
             bodies.append(_rest_body(w, s[1], s[2], s[3]))
 
     def finish():
         if w is None:
             return None
-        w.sim.effects = []
         w.sim.drain_threads()
         t = w.sim.connectors[0].transport
         p = w.fsm.protocol
+        if any(s[0] == 'event' for s in specs):
+            # a message handed to a transport that has just gone is "dropped with its connection" (as in vf/deferred.py); the
+            # counters are those of the *current* connection: once it is gone there is nothing C18 compares them with
+            from .ref import wire
+            dropped = [m for e in w.sim.effects if e[0] == 'write-dropped' for m in wire.abstract_writes(e[2])]
+            return ([m for _, d in t.writes for m in wire.abstract_writes(d)] + dropped, t.connected, bool(t.disconnecting), w.reported_state(),
+                    dict(p.msg_sent_stat) if p is not None and t.connected else None)
         return sorted(bytes(d) for _, d in t.writes), dict(p.msg_sent_stat)
     return bodies, finish
 
 
 def same(a, b):
     return repr(a) == repr(b)
+
+
+def _either(specs):
+    return any(s[0] == 'event' for s in specs)
 
 
 def explore_pair(specs, bound, max_cuts=None):
@@ -80,7 +130,7 @@ def explore_pair(specs, bound, max_cuts=None):
     def mk():
         bodies, finish = make_bodies(specs)
         return _WithFinish(bodies, finish)
-    return threads.explore(mk, bound, rt, same=same, max_cuts=max_cuts)
+    return threads.explore(mk, bound, rt, same=same, max_cuts=max_cuts, either_order=_either(specs))
 
 
 class _WithFinish(list):
@@ -211,11 +261,32 @@ def pairs_c17(tier):
 def pairs_c16(tier):
     s = '/v1/peer/<ip>/send/update'
     return [('send/update x send/update', [('rest', 'POST', s, COMM_X), ('rest', 'POST', s, COMM_Y)]),
-            ('send/update x send/route-refresh', [('rest', 'POST', s, COMM_X), ('rest', 'POST', '/v1/peer/<ip>/send/route-refresh', {'afi': 1, 'safi': 1, 'res': 0})])]
+            ('send/update x send/route-refresh', [('rest', 'POST', s, COMM_X), ('rest', 'POST', '/v1/peer/<ip>/send/route-refresh', {'afi': 1, 'safi': 1, 'res': 0})])] \
+        + _event_pairs([('send/update', ('POST', s, COMM_X)),
+                        ('send/bin_update', ('POST', '/v1/peer/<ip>/send/bin_update', {'binary_data': _messages()['UPD'].hex()}))], EVENTS)
+
+
+EVENTS = (('RX', 0, 'KA'), ('RX', 0, 'NOTIF_CEASE'), ('RX', 0, 'UPD'), ('PEER_CLOSE', 0), ('TICK', 0), ('OP_STOP',))
+
+
+def _event_pairs(reqs, events):
+    """a REST request inside its worker thread x one event of the reactor thread: the two need not commute, every interleaving
+    must come out as one of the two sequential orders (answer sent / refused, messages on the wire, counters, session state)"""
+    out = []
+    for name, req in reqs:
+        for ev in events:
+            out.append(('%s x reactor event %s' % (name, ' '.join(map(str, ev))), [('rest',) + req, ('event', ev)]))
+    return out
+
+
+def pairs_c18(tier):
+    s = '/v1/peer/<ip>/send/update'
+    reqs = [('send/update', ('POST', s, COMM_X)), ('send/route-refresh', ('POST', '/v1/peer/<ip>/send/route-refresh', {'afi': 1, 'safi': 1, 'res': 0}))]
+    return _event_pairs(reqs, (('RX', 0, 'KA'), ('RX', 0, 'NOTIF_CEASE'), ('PEER_CLOSE', 0)))
 
 
 def tasks(prop, tier):
-    pairs = {'C06': pairs_c06, 'C07': pairs_c07, 'C16': pairs_c16, 'C17': pairs_c17}[prop](tier)
+    pairs = {'C06': pairs_c06, 'C07': pairs_c07, 'C16': pairs_c16, 'C17': pairs_c17, 'C18': pairs_c18}[prop](tier)
     out = []
     for label, specs in pairs:
         # one preemption: every cut point (quick: at most 400 per body, bodies of thousands of lines are thinned)
